@@ -22,6 +22,15 @@ pub mod atomic {
     pub use shuttle::sync::atomic::*;
 }
 
+/// Blocking primitives: a future edit of the builder that reaches for one of these gets the
+/// scheduler-aware version instead of blocking the simulator's only OS thread.
+pub mod sync {
+    pub use shuttle::sync::{Barrier, BarrierWaitResult, Condvar, Mutex, MutexGuard, Once, RwLock, RwLockReadGuard, RwLockWriteGuard};
+    pub mod mpsc {
+        pub use shuttle::sync::mpsc::*;
+    }
+}
+
 thread_local! {
     static IN_SHUTTLE: Cell<bool> = const { Cell::new(false) };
     static TRACE_HASH: Cell<u64> = const { Cell::new(0xcbf29ce484222325) };
